@@ -121,6 +121,47 @@ func suiteGrammar(o *Out, thorough bool, seed int64) {
 			}
 		}
 	}
+	// (b2) the same operator patterns deep inside nested expressions: every nesting construct (parentheses, array
+	// elements, call arguments, conditional branches, unary operators), with an operator waiting at every level, to
+	// depths around the sizes a fixed stack or a recursion limit would have; the innermost expression mixes a tighter
+	// operator between two looser ones (where a wrong precedence floor shows) for every ordered pair of a
+	// representative per precedence level
+	{
+		reps := []string{"??", "||", "&&", "|", "^", "&", "==", "<", "+", "*"}
+		openers := []struct{ open, close string }{{"1 + (", ")"}, {"2 * (", ")"}, {"a && (", ")"}, {"f(1, 3 - ", ")"}, {"[1, 2 + ", "]"}, {"1 - -(", ")"}, {"x ? 1 + (", ") : 2"}, {"(", ") * 2"}, {"1 < (2 + ", ")"}}
+		depths := []int{1, 2, 3, 7, 8, 9, 15, 16, 17, 30, 31, 32, 33, 34, 63, 64, 65, 100}
+		if thorough {
+			depths = append(depths, 127, 128, 129, 255, 256, 257, 500)
+		}
+		for oi, op := range openers {
+			for _, d := range depths {
+				for i, lo := range reps {
+					for j, hi := range reps {
+						if !thorough && (i+2*j+d+oi)%4 != 0 {
+							continue
+						}
+						inner := "10 " + lo + " 2 " + hi + " 3 " + lo + " 4"
+						emitParse(o, []byte(strings.Repeat(op.open, d)+inner+strings.Repeat(op.close, d)), true)
+					}
+				}
+				// openers mixed level by level
+				var ob, cb strings.Builder
+				for l := 0; l < d; l++ {
+					q := openers[(l+oi)%len(openers)]
+					ob.WriteString(q.open)
+					cb.WriteString(q.close)
+				}
+				// (closers in reverse order of the openers)
+				var closers []string
+				for l := 0; l < d; l++ {
+					closers = append([]string{openers[(l+oi)%len(openers)].close}, closers...)
+				}
+				emitParse(o, []byte(ob.String()+"10 - 2 * 3 - 4 + 5 == 6"+strings.Join(closers, "")), true)
+				_ = cb
+			}
+		}
+		o.Notes = append(o.Notes, "deep nesting: 9 nesting constructs x depths up to 100 (thorough 500) x operator pairs over 10 precedence levels in the innermost expression")
+	}
 	// (d) random grammar-directed programs with minimal parenthesisation
 	r := newRand(seed, "grammar")
 	g := &gen{r: r, idents: []string{"x", "y", "s"}, funcs: []string{"f", "g.h", "len"}, lits: []string{"1", "2.5", "'a'", "null", "true", "this", "ctx", "0x1f", "1e3", ".5"}}
